@@ -6,7 +6,8 @@
 (* parser PathTok.  Final states (phase "done") are the cases replayed into *)
 (* the real parser: tape -> string, expected status and retained segments.  *)
 EXTENDS PathTok, TLC
-CONSTANTS MaxCmds, NVar, Stepwise, NRepl
+CONSTANTS MaxCmds, NVar, Stepwise, NRepl,
+          MinCmds    \* faults are injected into behaviours of at least this many commands (1 = all; larger in simulation mode)
 VARIABLES phase, tape, pos, ts, edit
 allvars == <<vars, phase, tape, pos, ts, edit>>
 
@@ -44,7 +45,7 @@ Gen == /\ phase = "gen" /\ Len(hist) < MaxCmds
              Do(<<l, Args(l, v, cz), impl, cz>>)
        /\ UNCHANGED <<phase, tape, pos, ts, edit>>
 
-Inject == /\ phase = "gen" /\ hist # <<>>
+Inject == /\ phase = "gen" /\ Len(hist) >= MinCmds
           /\ \E e \in Edits(Flatten(hist)) :
                /\ edit' = e
                /\ tape' = ApplyEdit(Flatten(hist), e)
@@ -62,6 +63,8 @@ Finish == /\ phase = "run" /\ pos > Len(tape)
 Done == phase = "done" /\ UNCHANGED allvars
 Next == Gen \/ Inject \/ Consume \/ Finish \/ Done
 
+\* simulation mode: every single-fault tape of the longer behaviours visited
+Emit == phase = "done" => PrintT(<<"CASE", tape, ts[1], ts[5][5], edit>>)
 \* the total parser agrees with PathInterp on every conforming behaviour
 AgreesOnConforming == phase = "gen" =>
    LET r == RunTokens(Flatten(hist)) IN r[1] = "ok" /\ r[5] = <<cur, zp, ctl, deg, segs>>
